@@ -408,6 +408,13 @@ def run(ctx: Context, rep) -> None:
     # nothing read from the dataset's files / the environment is memoised
     from sa.rules import shared as _shm
     _shm.check_no_memo(ctx, rep, "C17.memo")
+    # the containment test lives in the list loader: every shard list is
+    # obtained through it (same structural check as C06.load), and it
+    # compares with a root that was resolved when the handle was made (same
+    # check as C20.reloc): a relative root re-read after a chdir names
+    # another tree
+    _shm.share_rules(ctx, rep, "c06", {"C06.load": "C17.loader"})
+    _shm.share_rules(ctx, rep, "c20", {"C20.reloc": "C17.root"})
 
 def check_join(ctx: Context, rep, field_names: set[str]) -> int:
     # summaries: parameters that flow into a read sink
